@@ -33,6 +33,20 @@ pub struct Built {
 
 impl SysSpec {
     pub fn build(&self, ctx: &mut Context) -> Built {
+        // "-offset<N>": the system is built into a context that already holds N unrelated expressions, so that its
+        // nodes straddle reference N (58: the 64-bit word boundary of the dense sets / maps, 122: the second word,
+        // 65530: the 2^16 mark). Nothing in the semantics may depend on where in the context a system lives.
+        if let Some(pos) = self.name.find("-offset") {
+            let n: usize = self.name[pos + 7..].chars().take_while(|c| c.is_ascii_digit()).collect::<String>().parse().unwrap_or(0);
+            let mut k = 0usize;
+            loop {
+                let f = T::Sym(format!("__fill_{k}"), Ty::Bv(1)).build(ctx);
+                k += 1;
+                if usize::from(f) + 1 >= n {
+                    break;
+                }
+            }
+        }
         let mut sys = TransitionSystem::new(self.name.clone());
         let mut inputs = vec![];
         for (n, ty) in self.inputs.iter() {
@@ -849,7 +863,25 @@ pub fn corner_extras() -> Vec<SysSpec> {
         })
         .collect();
     out.extend(unnamed);
+    // and built into a context that is already populated (see SysSpec::build)
+    let offs = offset_variants(&out, 0, 3);
+    out.extend(offs);
     out
+}
+
+/// copies built at an offset in the context (see SysSpec::build): the first `n_first` and every `stride`-th of
+/// the others, rotating through the three offsets
+pub fn offset_variants(specs: &[SysSpec], n_first: usize, stride: usize) -> Vec<SysSpec> {
+    specs
+        .iter()
+        .enumerate()
+        .filter(|(i, sp)| (*i < n_first || i % stride == 1) && !sp.name.contains("offset"))
+        .map(|(i, sp)| {
+            let mut c = sp.clone();
+            c.name = format!("{}-offset{}", sp.name, [58, 122, 65530][i % 3]);
+            c
+        })
+        .collect()
 }
 
 pub fn skeleton(name: &str) -> Skeleton {
